@@ -431,6 +431,8 @@ def check(prop, tier, repo, seed, jobs):
                 errors.append("solver disagreement on %s: %s" % (ob["name"], ob["detail"]))
             elif ob["kind"] == "lemma":
                 errors.append("lemma not discharged: %s (%s %s)" % (ob["name"], ob["verdict"], ob["detail"]))
+            elif ob["kind"] == "cover":
+                errors.append("vacuity guard: %s - %s" % (ob["name"], ob["clause"]))
             elif ob["kind"] in INTERNAL_KINDS:
                 if ob["verdict"] == "refuted" and ob.get("confirmed"):
                     violations.append((ob.get("replay_path"), "", ob["name"]))
